@@ -72,6 +72,8 @@ def run_histories(cfg, uni, hists, now_build):
             cl = list(candidates_for(cfg, uni, P))
             if cfg.name == 'C01':
                 cl += cands.c01_state_candidates(P, head)
+            if cfg.name == 'C05':
+                cl += cands.c05_state_candidates(P, head)
             for c in cl:
                 forms = [('wire', c.wire())]
                 if forms[0][1] is None or cfg.both_forms:
